@@ -59,7 +59,7 @@ def run(ctx):
     # deterministic small-step interleavings, only when /repo carries the rendezvous hook
     par = None
     if hook_present():
-        rc, out, _ = vlib.cargo_build(["intern_replay"], features=["qbice_storage/verif_hooks"])
+        rc, out, _ = vlib.cargo_build(["intern_replay"], features=["c15_hook", "qbice_storage/verif_hooks"])
         if rc != 0:
             raise vlib.CheckError("intern_replay does not build against /repo with verif_hooks:\n" + out[-3000:])
         par = replay_harness(ctx, ctx.seed, 200 if quick else 2000, 50, cdir)
